@@ -257,7 +257,17 @@ fn to_rhs(s: &PathSegment, self_ty: &Type) -> Type {
     self_ty.clone()
 }
 fn ref_type(ty: &Type) -> Type {
-    parse_quote!(&#ty)
+    // bounds joined by `+` need parentheses after `&` (`&(dyn A + B)`)
+    let has_plus = match ty {
+        Type::TraitObject(t) => t.bounds.len() > 1 || t.bounds.trailing_punct(),
+        Type::ImplTrait(t) => t.bounds.len() > 1 || t.bounds.trailing_punct(),
+        _ => false,
+    };
+    if has_plus {
+        parse_quote!(&(#ty))
+    } else {
+        parse_quote!(&#ty)
+    }
 }
 fn ref_type_with(ty: &Type, is_ref: bool) -> Type {
     if is_ref {
